@@ -107,6 +107,18 @@ pub fn buffer_deadline() -> std::time::Duration {
 static BATCHES: AtomicU64 = AtomicU64::new(0);
 static UPDATE_BATCHES: AtomicU64 = AtomicU64::new(0);
 
+static APPLIED: Mutex<Vec<([u8; 16], u64)>> = Mutex::new(Vec::new());
+
+/// a remote version's changes were merged into the tables (in commit order, and in
+/// application order inside one commit)
+pub fn applied_push(actor: [u8; 16], version: u64) {
+    APPLIED.lock().unwrap().push((actor, version));
+}
+
+pub fn applied_take() -> Vec<([u8; 16], u64)> {
+    std::mem::take(&mut *APPLIED.lock().unwrap())
+}
+
 /// a subscription matcher finished processing one batch of candidates
 pub fn batch_done() {
     BATCHES.fetch_add(1, Ordering::SeqCst);
